@@ -1043,16 +1043,18 @@ func (e *Ev) evalCall(n *Node, sc *Scope) Res {
 // mentionsUnknown: the subtree names (anywhere, evaluated or not) a variable whose
 // value is not wholly known.  try/can decide on the SYNTACTIC references of their
 // argument whether to defer, so this is what makes their result unknown.
+//
+// "References" are the FREE variables of the argument (scope.go): a name that a
+// for-expression / %{for} directive inside the argument binds is a local of that loop for the
+// extent of its clauses, whatever the surrounding scope holds under the same name, so an
+// unknown value that is merely shadowed must not make try/can defer.
 func (e *Ev) mentionsUnknown(n *Node, sc *Scope) bool {
-	found := false
-	Walk(n, func(m *Node) {
-		if m.K == KVar {
-			if v, ok := sc.lookup(m.Name); ok && !v.IsWhollyKnown() {
-				found = true
-			}
+	for name := range FreeVars(n) {
+		if v, ok := sc.lookup(name); ok && !v.IsWhollyKnown() {
+			return true
 		}
-	})
-	return found
+	}
+	return false
 }
 
 // ---------------------------------------------------------------- templates
